@@ -129,7 +129,17 @@ func TestEcsDenialBypass(t *testing.T) {
 				q.AuthenticatedData = st.AD
 				if st.Kind == "ecs" || st.Kind == "ecscd" {
 					o := q.IsEdns0()
-					o.Option = append(o.Option, denSubnet(st.Shape))
+					if st.Shape == "dup" {
+						// (audit probe, not produced by the model) two OPT records: the subnet option rides in the FIRST,
+						// IsEdns0 selects the last
+						o.Option = append(o.Option, denSubnet("v4"))
+						second := &dns.OPT{Hdr: dns.RR_Header{Name: ".", Rrtype: dns.TypeOPT}}
+						second.SetUDPSize(1232)
+						second.SetDo(st.DO)
+						q.Extra = append(q.Extra, second)
+					} else {
+						o.Option = append(o.Option, denSubnet(st.Shape))
+					}
 				}
 				q.CheckingDisabled = st.Kind == "cd" || st.Kind == "ecscd"
 				w := mock.NewWriter("udp", "203.0.113.5:53000")
